@@ -42,12 +42,18 @@ def run(ctx):
     ctx.ob("C19.D1-delivery-chain", cname(dp, None, "Dispatcher.process -> cb_registry.process(name, name.name, doc) once"), ok, "" if ok else "registry not called exactly once with the document", where=where(dp, dp.node))
     cp = repo.func(UT, "CallbackRegistry.process")
     loops = [s for s in A.walk_stmts(cp.node.body) if isinstance(s, ast.For)]
-    ok = len(loops) == 1 and A.norm(loops[0].iter) == "list(self.callbacks[sig].items())"
+    SNAP = {"list(self.callbacks[sig].items())": 1, "tuple(self.callbacks[sig].items())": 1, "list(self.callbacks[sig].values())": None, "tuple(self.callbacks[sig].values())": None}
+    ok = len(loops) == 1 and A.norm(loops[0].iter) in SNAP
     ctx.ob("C19.D1-delivery-chain", cname(cp, None, "iterates a snapshot of the insertion-ordered callbacks of this signal"), ok,
            "" if ok else "callbacks are no longer visited in subscription order over a snapshot", nontrivial=True, where=where(cp, cp.node))
     if loops:
-        fcalls = [c for c in A.calls_in(loops[0]) if A.norm(c.func) == "func"]
-        ok = len(fcalls) == 1 and A.norm(fcalls[0]) == "func(*args, **kwargs)" and not any(isinstance(x, (ast.Break, ast.Return)) for x in A.walk_stmts(loops[0].body))
+        # the callable is the loop's value element (second of an items() pair, the target itself for values()), whatever it is called
+        idx = SNAP.get(A.norm(loops[0].iter), 1)
+        tgt = loops[0].target
+        fname = tgt.elts[idx].id if (idx is not None and isinstance(tgt, ast.Tuple) and len(tgt.elts) == 2 and isinstance(tgt.elts[idx], ast.Name)) else \
+            tgt.id if (idx is None and isinstance(tgt, ast.Name)) else "func"
+        fcalls = [c for c in A.calls_in(loops[0]) if A.norm(c.func) == fname]
+        ok = len(fcalls) == 1 and A.norm(fcalls[0]) == f"{fname}(*args, **kwargs)" and not any(isinstance(x, (ast.Break, ast.Return)) for x in A.walk_stmts(loops[0].body))
         ctx.ob("C19.D1-delivery-chain", cname(cp, None, "each callable called once with the document; no early exit"), ok, "" if ok else "a callable is called twice / the loop stops early", where=where(cp, loops[0]))
     con = repo.func(UT, "CallbackRegistry.connect")
     ok = "self.callbacks.setdefault(sig, dict())" in A.norm(con.node) and "self.callbacks[sig][cid] = proxy" in A.norm(con.node)
